@@ -8,20 +8,10 @@ From GoCarProofs Require Import BytesFacts VarintFacts CidFacts HeaderFacts Scan
 From Coq Require Import Permutation.
 
 (* ---- small facts ---------------------------------------------------------------------------------- *)
-Lemma kind_of_0 kn : kn = 0 -> kind_of kn = KBlockstore.
-Proof. intros ->. reflexivity. Qed.
-Lemma kind_of_stream kn : kind_of kn = KStorage false <-> kn = 3.
-Proof.
-  unfold kind_of. destruct (kn =? 0) eqn:E0; [split; [discriminate|lia]|].
-  destruct (kn =? 3) eqn:E3; split; intros H; try reflexivity; try lia; try discriminate.
-Qed.
-Lemma kind_of_not_bs kn : kn <> 0 -> kind_of kn <> KBlockstore.
-Proof. intros H. unfold kind_of. replace (kn =? 0) with false by lia. destruct (kn =? 3); discriminate. Qed.
-
 Lemma kind_of_bs kn : kind_of kn = KBlockstore <-> kn = 0.
 Proof.
   unfold kind_of. destruct (kn =? 0) eqn:E0; [split; [lia|reflexivity]|].
-  destruct (kn =? 3); split; intros H; try discriminate; lia.
+  destruct ((kn =? 3) || (kn =? 4)); split; intros H; try discriminate; lia.
 Qed.
 
 Lemma roots_ok_not_sticky roots : roots_ok roots ->
@@ -108,12 +98,34 @@ Section Session.
     if kn =? 0 then (w_v1 o = false /\ ws_finalized s = true) \/ bs_sticky s = true
     else (w_v1 o = false /\ ws_closed s = true) \/ ws_finalized s = true.
 
+  (* what the read operations rely on: the payload of the acknowledged blocks sits untouched at the
+     data offset (whatever lies before and behind it) and the index is theirs *)
+  Definition Readable (s : wstate) (st : list blk) : Prop :=
+    (exists pre post, ws_file s = pre ++ payload nilroots roots st ++ post /\ blen pre = data_base o) /\
+    ws_idx s = idx_of start st /\ Forall stored_ok st.
+  Definition size_ok (st : list blk) : Prop :=
+    51 + w_dpad o + w_ipad o + blen (payload nilroots roots st) < two63.
+
   Record FInv (s : wstate) (st : list blk) : Prop := mkFInv {
     fi_opts : ws_opts s = o;
     fi_kind : ws_kind s = k;
     fi_len : length (ws_idx s) = length st;
+    fi_read : size_ok st -> Readable s st;
     fi_state : Dead s \/ Clean s st
   }.
+
+  Lemma clean_readable s st : Clean s st -> Readable s st.
+  Proof.
+    intros HC. split; [|split; [apply (cl_idx _ _ HC)|apply (cl_st _ _ HC)]].
+    exists pre_of, []. rewrite app_nil_r. split; [apply (cl_file _ _ HC)|apply blen_pre_of].
+  Qed.
+  Lemma readable_same s s' st : ws_file s' = ws_file s -> ws_idx s' = ws_idx s -> Readable s st -> Readable s' st.
+  Proof. intros Hf Hi (H1 & H2 & H3). split; [rewrite Hf; exact H1|split; [rewrite Hi; exact H2|exact H3]]. Qed.
+  Lemma readable_append s s' st w : ws_file s' = ws_file s ++ w -> ws_idx s' = ws_idx s -> Clean s st -> Readable s' st.
+  Proof.
+    intros Hf Hi HC. split; [|split; [rewrite Hi; apply (cl_idx _ _ HC)|apply (cl_st _ _ HC)]].
+    exists pre_of, w. split; [rewrite Hf, (cl_file _ _ HC), <- app_assoc; reflexivity|apply blen_pre_of].
+  Qed.
 
   Lemma clean_len s st : Clean s st -> length (ws_idx s) = length st.
   Proof. intros H. rewrite (cl_idx _ _ H). apply idx_of_length. apply (cl_st _ _ H). Qed.
@@ -126,12 +138,12 @@ Section Session.
   Qed.
 
   (* ---- open ------------------------------------------------------------------------------------ *)
-  Lemma open_new_clean faults s :
-    open_new k o nilroots roots faults = Ok s ->
-    FInv s [] /\ Clean s [] /\ ws_closed s = false /\ ws_finalized s = false.
+  Lemma open_new_clean k' faults s :
+    open_new k' o nilroots roots faults = Ok s ->
+    Clean s [] /\ ws_opts s = o /\ ws_kind s = k' /\ ws_idx s = [] /\ ws_closed s = false /\ ws_finalized s = false.
   Proof.
     unfold open_new, base_fits in *.
-    destruct (match k with KStorage false => negb (w_v1 o) | _ => false end); [discriminate|].
+    destruct (match k' with KStorage false => negb (w_v1 o) | _ => false end); [discriminate|].
     set (hb := enc_header (roots_opt nilroots roots) 1).
     assert (Hchunks : header_chunks nilroots roots = put_uv (0 + blen hb) :: [hb]) by reflexivity.
     assert (Hcat : concat (header_chunks nilroots roots) = ld hb) by apply concat_header_chunks.
@@ -142,14 +154,13 @@ Section Session.
       rewrite data_base_v1 in * by exact Ev1.
       destruct (write_chunks_end _ _ _ _ _ _ eq_refl Ew) as (w & Hw & Ha & Hok & _).
       destruct (Hok eq_refl) as [-> _]. cbn [d_file app] in Hw. rewrite Hcat in *.
-      assert (HC : Clean (mkws dv2 [] (abs - 0) false false roots o k) []).
+      assert (HC : Clean (mkws dv2 [] (abs - 0) false false roots o k') []).
       { constructor; cbn [ws_pos ws_idx ws_finalized]; try reflexivity; try constructor.
         - unfold ws_file. cbn [ws_dev]. unfold pre_of. rewrite Ev1. unfold payload.
           cbn [sections map concat app]. rewrite app_nil_r. exact Hw.
         - unfold payload. cbn [sections map concat]. rewrite app_nil_r. cbn [d_file] in Ha. rewrite blen_nil in Ha. fold hb. lia.
         - unfold bs_sticky. cbn [ws_roots]. apply roots_ok_not_sticky. apply Hhdr. }
-      split; [|split; [exact HC|split; reflexivity]].
-      constructor; try reflexivity. right. exact HC.
+      split; [exact HC|]. repeat split; reflexivity.
     - destruct (dev_write (mkdev [] [] faults) 0 pragma) as [[d1 n1] ok1] eqn:E1.
       destruct ok1; cbn [negb]; [|discriminate].
       destruct (write_chunks d1 (data_base o) (header_chunks nilroots roots)) as [[dv2 abs] ok2] eqn:Ew.
@@ -162,15 +173,34 @@ Section Session.
       destruct (write_chunks_beyond _ _ _ _ _ _ (put_uv_nonempty _) Hge Ew)
         as (Hw & Ha & _).
       cbn [concat] in Hw, Ha. rewrite app_nil_r, N.add_0_l in Hw, Ha. change (put_uv (blen hb) ++ hb) with (ld hb) in Hw, Ha. rewrite Hf1, blen_pragma in Hw.
-      assert (HC : Clean (mkws dv2 [] (abs - data_base o) false false roots o k) []).
+      assert (HC : Clean (mkws dv2 [] (abs - data_base o) false false roots o k') []).
       { constructor; cbn [ws_pos ws_idx ws_finalized]; try reflexivity; try constructor.
         - unfold ws_file. cbn [ws_dev]. unfold pre_of. rewrite Ev1. unfold payload.
           cbn [sections map concat]. rewrite app_nil_r. rewrite Hw, Hbase, <- app_assoc.
           replace (51 + w_dpad o - 11) with (40 + w_dpad o) by lia. reflexivity.
         - unfold payload. cbn [sections map concat]. rewrite app_nil_r. fold hb. lia.
         - unfold bs_sticky. cbn [ws_roots]. apply roots_ok_not_sticky. apply Hhdr. }
-      split; [|split; [exact HC|split; reflexivity]].
-      constructor; try reflexivity. right. exact HC.
+      split; [exact HC|]. repeat split; reflexivity.
+  Qed.
+
+  Lemma clean_set_kind s st k' : Clean s st -> Clean (set_kind s k') st.
+  Proof. intros [H1 H2 H3 H4 H5 H6]. constructor; assumption. Qed.
+
+  Lemma fopen_clean faults s :
+    fopen kn o nilroots roots faults = Ok s ->
+    FInv s [] /\ Clean s [] /\ ws_closed s = false /\ ws_finalized s = false.
+  Proof.
+    unfold fopen. destruct (kn =? 4) eqn:E4.
+    - destruct (open_new (KStorage true) o nilroots roots faults) as [s1|e] eqn:Eo; [|discriminate].
+      intros H; inversion H; subst s. clear H.
+      destruct (open_new_clean _ _ _ Eo) as (HC & Ho & Hk & Hi & Hc & Hf).
+      pose proof (clean_set_kind s1 [] (KStorage false) HC) as HC'.
+      split; [|split; [exact HC'|split; [exact Hc|exact Hf]]].
+      constructor; [exact Ho| |cbn [set_kind ws_idx]; rewrite Hi; reflexivity|intros _; apply clean_readable; exact HC'|right; exact HC'].
+      unfold k, kind_of. replace (kn =? 0) with false by lia. rewrite E4, orb_true_r. reflexivity.
+    - intros Eo. destruct (open_new_clean _ _ _ Eo) as (HC & Ho & Hk & Hi & Hc & Hf).
+      split; [|split; [exact HC|split; [exact Hc|exact Hf]]].
+      constructor; [exact Ho|exact Hk|rewrite Hi; reflexivity|intros _; apply clean_readable; exact HC|right; exact HC].
   Qed.
 
   (* ---- one block ------------------------------------------------------------------------------------ *)
@@ -183,7 +213,7 @@ Section Session.
     ((out = ONil /\ Clean s' (spec_put o start st c d) /\ ws_finalized s' = ws_finalized s) \/
      (is_err out = true /\ ws_idx s' = ws_idx s /\
       ((Clean s' st /\ ws_file s' = ws_file s /\ ws_finalized s' = ws_finalized s) \/
-       sticky kn s' = true))).
+       (sticky kn s' = true /\ Readable s' st)))).
   Proof.
     intros HC Ho Hk Hp Hsm. unfold put_one. rewrite Ho.
     assert (Hspec : spec_put o start st c d
@@ -258,7 +288,9 @@ Section Session.
              cbn [set_roots set_dev ws_opts ws_kind ws_closed ws_finalized ws_idx].
              split; [exact Ho|]. split; [exact Hk|]. split; [reflexivity|].
              right. split; [reflexivity|]. split; [reflexivity|]. right.
-             unfold sticky. rewrite Hkn. reflexivity.
+             split; [unfold sticky; rewrite Hkn; reflexivity|].
+             apply (readable_append s _ st w); [|reflexivity|exact HC].
+             unfold ws_file. cbn [set_roots set_dev ws_dev]. rewrite (dev_try_truncate_fail _ _ _ Et). exact Hw.
         * (* storage on a WriterAt: the same; the sticky error lives in ws_finalized *)
           assert (Hkn : kn <> 0) by (intros E; apply kind_of_bs in E; pose proof Ek as Ek'; unfold k in Ek'; congruence).
           destruct (dev_try_truncate dv (data_base o + ws_pos s)) as [dv' tok] eqn:Et. destruct tok.
@@ -270,19 +302,57 @@ Section Session.
              cbn [set_flags set_dev ws_opts ws_kind ws_closed ws_finalized ws_idx].
              split; [exact Ho|]. split; [exact Hk|]. split; [reflexivity|].
              right. split; [reflexivity|]. split; [reflexivity|]. right.
-             unfold sticky. replace (kn =? 0) with false by lia. reflexivity.
+             split; [unfold sticky; replace (kn =? 0) with false by lia; reflexivity|].
+             apply (readable_append s _ st w); [|reflexivity|exact HC].
+             unfold ws_file. cbn [set_flags set_dev ws_dev]. rewrite (dev_try_truncate_fail _ _ _ Et). exact Hw.
         * (* plain io.Writer: sticky write error *)
           assert (Hkn : kn <> 0) by (intros E; apply kind_of_bs in E; pose proof Ek as Ek'; unfold k in Ek'; congruence).
           intros H; inversion H; subst s' out. clear H.
           cbn [set_flags set_dev ws_opts ws_kind ws_closed ws_finalized ws_idx].
           split; [exact Ho|]. split; [exact Hk|]. split; [reflexivity|].
           right. split; [reflexivity|]. split; [reflexivity|]. right.
-          unfold sticky. replace (kn =? 0) with false by lia. reflexivity.
+          split; [unfold sticky; replace (kn =? 0) with false by lia; reflexivity|].
+          apply (readable_append s _ st w); [|reflexivity|exact HC].
+          unfold ws_file. cbn [set_flags set_dev ws_dev]. exact Hw.
   Qed.
 
   (* ---- flags ---------------------------------------------------------------------------------------- *)
   Lemma clean_set_flags s st a b : Clean s st -> (kn <> 0 -> b = false) -> Clean (set_flags s a b) st.
   Proof. intros [H1 H2 H3 H4 H5] Hb. constructor; try assumption. Qed.
+
+  (* store.Finalize cannot touch the payload: the index goes behind it, the header into the first 51
+     bytes, whatever fails *)
+  Lemma store_finalize_readable s st :
+    ws_file s = pre_of ++ payload nilroots roots st -> ws_pos s = blen (payload nilroots roots st) ->
+    ws_idx s = idx_of start st -> Forall stored_ok st -> ws_opts s = o -> w_v1 o = false ->
+    size_ok st -> forall s' out, store_finalize s = (s', out) -> Readable s' st.
+  Proof.
+    intros Hfile Hpos Hidx Hst Ho Hv2 Hsz s2 out. pose proof Hfit as Hfit'. unfold base_fits in Hfit'.
+    unfold size_ok in Hsz. unfold store_finalize. rewrite Ho.
+      set (h := set_fully_indexed (w_storeid o) (with_data_size (ws_pos s) (hdr_of o))).
+      assert (Hioff : h_ioff h = 51 + w_dpad o + w_ipad o + ws_pos s) by (apply hdr_of_ioff; unfold two63, two64 in *; lia).
+      assert (Hbase : data_base o = 51 + w_dpad o) by (apply data_base_v2; [exact Hv2|lia]).
+      assert (Hself : Readable s st).
+      { split; [|split; assumption]. exists pre_of, []. rewrite app_nil_r. split; [exact Hfile|apply blen_pre_of]. }
+      destruct (ii_flatten (w_codec o) (ws_idx s)) as [fi|]; [|intros H; inversion H; subst; exact Hself].
+      destruct (write_chunks (ws_dev s) (h_ioff h) (idx_chunks fi)) as [[dv1 a1] ok1] eqn:E1.
+      assert (Hge : blen (pre_of ++ payload nilroots roots st) <= h_ioff h)
+        by (rewrite blen_app, blen_pre_of, Hbase, Hioff, Hpos; lia).
+      assert (Hf0 : d_file (ws_dev s) = (pre_of ++ payload nilroots roots st) ++ []) by (rewrite app_nil_r; exact Hfile).
+      destruct (write_chunks_keeps_prefix _ _ _ _ _ _ _ _ Hf0 Hge E1) as (b1 & Hb1).
+      assert (Hr1 : forall s3, ws_file s3 = d_file dv1 -> ws_idx s3 = ws_idx s -> Readable s3 st).
+      { intros s3 Hf3 Hi3. split; [|split; [rewrite Hi3; exact Hidx|exact Hst]].
+        exists pre_of, b1. split; [rewrite Hf3, Hb1, <- app_assoc; reflexivity|apply blen_pre_of]. }
+      destruct ok1; cbn [negb]; [|intros H; inversion H; subst; apply Hr1; reflexivity].
+      destruct (write_chunks dv1 pragma_size (v2hdr_chunks h)) as [[dv2 a2] ok2] eqn:E2.
+      intros H; inversion H; subst s2. clear H.
+      rewrite <- app_assoc in Hb1.
+      assert (Hin : pragma_size + blen (concat (v2hdr_chunks h)) <= blen pre_of)
+        by (rewrite blen_v2hdr_chunks, blen_pre_of, Hbase; unfold pragma_size; lia).
+      destruct (write_chunks_inside_prefix _ _ _ _ _ _ _ _ Hb1 Hin E2) as (pre2 & Hp2 & Hl2).
+      split; [|split; [exact Hidx|exact Hst]].
+      exists pre2, b1. unfold ws_file. cbn [set_dev ws_dev]. split; [exact Hp2|rewrite Hl2; apply blen_pre_of].
+  Qed.
 
   (* ---- store.Finalize on a clean CARv2 state ---------------------------------------------------------- *)
   Lemma store_finalize_clean s st s' out :
@@ -292,20 +362,25 @@ Section Session.
     ws_opts s' = o /\ ws_kind s' = ws_kind s /\ ws_idx s' = ws_idx s /\
     ws_closed s' = ws_closed s /\ ws_finalized s' = ws_finalized s /\
     (out = ONil -> 51 + w_dpad o + w_ipad o + blen (payload nilroots roots st) < two63 ->
-     wf_final (ws_file s') = Some (roots, st)).
+     wf_final (ws_file s') = Some (roots, st)) /\
+    (size_ok st -> Readable s' st).
   Proof.
-    intros Hfile Hpos Hidx Hst Ho Hv2. unfold store_finalize. rewrite Ho.
+    intros Hfile Hpos Hidx Hst Ho Hv2 Hsf.
+    pose proof (fun Hs => store_finalize_readable s st Hfile Hpos Hidx Hst Ho Hv2 Hs _ _ Hsf) as Hr. revert Hsf.
+    unfold store_finalize. rewrite Ho.
     set (h := set_fully_indexed (w_storeid o) (with_data_size (ws_pos s) (hdr_of o))).
     destruct (ii_flatten (w_codec o) (ws_idx s)) as [fi|] eqn:Efl.
-    2:{ intros H; inversion H; subst. repeat split; try assumption; try reflexivity. discriminate. }
+    2:{ intros H. inversion H; subst.
+        split; [exact Ho|]. do 4 (split; [reflexivity|]). split; [discriminate|exact Hr]. }
     destruct (write_chunks (ws_dev s) (h_ioff h) (idx_chunks fi)) as [[dv1 a1] ok1] eqn:E1.
     destruct ok1; cbn [negb].
-    2:{ intros H; inversion H; subst. cbn [set_dev ws_opts ws_kind ws_idx ws_closed ws_finalized].
-        repeat split; try assumption; try reflexivity. discriminate. }
+    2:{ intros H. inversion H; subst.
+        cbn [set_dev ws_opts ws_kind ws_idx ws_closed ws_finalized].
+        split; [exact Ho|]. do 4 (split; [reflexivity|]). split; [discriminate|exact Hr]. }
     destruct (write_chunks dv1 pragma_size (v2hdr_chunks h)) as [[dv2 a2] ok2] eqn:E2.
-    intros H; inversion H; subst s' out. clear H.
+    intros H. inversion H; subst s' out. clear H.
     cbn [set_dev ws_opts ws_kind ws_idx ws_closed ws_finalized].
-    split; [exact Ho|]. do 4 (split; [reflexivity|]).
+    split; [exact Ho|]. do 4 (split; [reflexivity|]). split; [|exact Hr].
     destruct ok2; [|discriminate]. intros _ Hsize.
     set (P := payload nilroots roots st) in *.
     unfold base_fits in Hfit.
@@ -372,7 +447,7 @@ Section Session.
     kn = 0 -> Clean s st -> ws_opts s = o -> ws_kind s = k -> Forall blk_small blks ->
     put_many_loop s blks = (s', out) ->
     ws_opts s' = o /\ ws_kind s' = k /\ ws_closed s' = ws_closed s /\ ws_finalized s' = ws_finalized s /\
-    exists st', length (ws_idx s') = length st' /\ (Clean s' st' \/ sticky kn s' = true) /\
+    exists st', length (ws_idx s') = length st' /\ (Clean s' st' \/ (sticky kn s' = true /\ Readable s' st')) /\
       ((out = ONil /\ st' = spec_put_all o start st blks) \/
        (is_err out = true /\
         st' = spec_put_upto o start st blks (N.of_nat (length st') - N.of_nat (length st)))).
@@ -433,12 +508,12 @@ Section Session.
     wf_final (ws_file s') = Some (roots, st').
 
   Lemma finv_of_clean s st : ws_opts s = o -> ws_kind s = k -> Clean s st -> FInv s st.
-  Proof. intros Ho Hk HC. constructor; try assumption; [apply clean_len; exact HC|right; exact HC]. Qed.
+  Proof. intros Ho Hk HC. constructor; try assumption; [apply clean_len; exact HC|intros _; apply clean_readable; exact HC|right; exact HC]. Qed.
 
   Lemma finv_of_sticky s st : ws_opts s = o -> ws_kind s = k -> length (ws_idx s) = length st ->
-    sticky kn s = true -> FInv s st.
+    sticky kn s = true /\ Readable s st -> FInv s st.
   Proof.
-    intros Ho Hk Hl Hs. constructor; try assumption. left. unfold Dead, sticky in *.
+    intros Ho Hk Hl [Hs Hr]. constructor; try assumption; [intros _; exact Hr|]. left. unfold Dead, sticky in *.
     destruct (kn =? 0); right; exact Hs.
   Qed.
 
@@ -470,7 +545,7 @@ Section Session.
 
     Lemma finv_flags_bs s st a b : FInv s st -> (ws_finalized s = true -> b = true) -> FInv (set_flags s a b) st.
     Proof.
-      intros [Ho Hk Hl Hs] Hb. constructor; try assumption. destruct Hs as [Hd|HC].
+      intros [Ho Hk Hl Hr Hs] Hb. constructor; try assumption. destruct Hs as [Hd|HC].
       - left. apply dead_bs in Hd. apply dead_bs. cbn [set_flags ws_finalized].
         destruct Hd as [[Hv Hf]|Hd]; [left; split; [exact Hv|apply Hb; exact Hf]|right; exact Hd].
       - right. apply clean_set_flags; [exact HC|]. intros Hne. congruence.
@@ -478,7 +553,7 @@ Section Session.
 
     Lemma clean_of_finv_bs s st : FInv s st -> ws_finalized s = false -> bs_sticky s = false -> Clean s st.
     Proof.
-      intros [_ _ _ [Hd|HC]] Hf Hs; [|exact HC]. apply dead_bs in Hd. destruct Hd as [[_ Hd]|Hd]; congruence.
+      intros [_ _ _ _ [Hd|HC]] Hf Hs; [|exact HC]. apply dead_bs in Hd. destruct Hd as [[_ Hd]|Hd]; congruence.
     Qed.
 
     Lemma put_bs s st c d s' out : FInv s st -> blk_small (c, d) ->
@@ -536,10 +611,10 @@ Section Session.
         destruct (ws_finalized s) eqn:Ef; [intros H; inversion H; subst; split; [exact HI|split; [right; reflexivity|discriminate]]|].
         pose proof (clean_of_finv_bs _ _ HI Ef Es) as HC. intros H.
         destruct (store_finalize_clean (set_flags s false true) st s1 r1 (cl_file _ _ HC) (cl_pos _ _ HC) (cl_idx _ _ HC)
-                    (cl_st _ _ HC) (fi_opts _ _ HI) Ev1 H) as (Ho1 & Hk1 & Hi1 & Hc1 & Hf1 & Hwf).
+                    (cl_st _ _ HC) (fi_opts _ _ HI) Ev1 H) as (Ho1 & Hk1 & Hi1 & Hc1 & Hf1 & Hwf & Hrd).
         cbn [set_flags ws_kind ws_idx ws_closed ws_finalized] in *.
         split; [|split; [exact (store_finalize_out _ _ _ H)|exact Hwf]].
-        constructor; [exact Ho1|rewrite Hk1; apply HI|rewrite Hi1; apply HI|].
+        constructor; [exact Ho1|rewrite Hk1; apply HI|rewrite Hi1; apply HI|exact Hrd|].
         left. apply dead_bs. left. split; [exact Ev1|exact Hf1].
     Qed.
 
@@ -589,7 +664,7 @@ Section Session.
 
     Lemma clean_of_finv_st s st : FInv s st -> ws_closed s = false -> ws_finalized s = false -> Clean s st.
     Proof.
-      intros [_ _ _ [Hd|HC]] Hc Hf; [|exact HC]. apply dead_st in Hd. destruct Hd as [[_ Hd]|Hd]; congruence.
+      intros [_ _ _ _ [Hd|HC]] Hc Hf; [|exact HC]. apply dead_st in Hd. destruct Hd as [[_ Hd]|Hd]; congruence.
     Qed.
 
     Lemma put_st s st c d s' out : FInv s st -> blk_small (c, d) ->
@@ -617,7 +692,8 @@ Section Session.
       intros HI. unfold st_finalize. rewrite (fi_opts _ _ HI).
       destruct (ws_finalized s) eqn:Ef.
       { intros H; inversion H; subst. split; [|discriminate].
-        constructor; [apply HI|apply HI|apply HI|]. left. apply dead_st. right. reflexivity. }
+        constructor; [apply HI|apply HI|apply HI|intros Hs; exact (readable_same s _ st eq_refl eq_refl (fi_read _ _ HI Hs))|].
+        left. apply dead_st. right. reflexivity. }
       destruct (ws_closed s) eqn:Ec; [intros H; inversion H; subst; split; [exact HI|discriminate]|].
       pose proof (clean_of_finv_st _ _ HI Ec Ef) as HC.
       destruct (w_v1 o) eqn:Ev1.
@@ -627,10 +703,10 @@ Section Session.
         intros _ _. apply clean_wf_v1; assumption.
       - intros H.
         destruct (store_finalize_clean (set_flags s true false) st s1 r1 (cl_file _ _ HC) (cl_pos _ _ HC) (cl_idx _ _ HC)
-                    (cl_st _ _ HC) (fi_opts _ _ HI) Ev1 H) as (Ho1 & Hk1 & Hi1 & Hc1 & Hf1 & Hwf).
+                    (cl_st _ _ HC) (fi_opts _ _ HI) Ev1 H) as (Ho1 & Hk1 & Hi1 & Hc1 & Hf1 & Hwf & Hrd).
         cbn [set_flags ws_kind ws_idx ws_closed ws_finalized] in *.
         split; [|exact Hwf].
-        constructor; [exact Ho1|rewrite Hk1; apply HI|rewrite Hi1; apply HI|].
+        constructor; [exact Ho1|rewrite Hk1; apply HI|rewrite Hi1; apply HI|exact Hrd|].
         left. apply dead_st. left. split; [exact Ev1|exact Hc1].
     Qed.
 
@@ -717,7 +793,7 @@ Section Session.
       destruct Hcase as [(-> & _) | (Herr & Hidx & Hrest)].
       + intros H; inversion H; subst. discriminate.
       + destruct r1; try discriminate. intros H; inversion H; subst. intros _. split; [exact Hidx|].
-        destruct Hrest as [(_ & Hf & _) | Hs]; [left; exact Hf|right; exact Hs].
+        destruct Hrest as [(_ & Hf & _) | [Hs _]]; [left; exact Hf|right; exact Hs].
     - assert (Hkn : kn <> 0) by lia. unfold st_put.
       destruct (cid_parse c) as [p|] eqn:Hp; [|intros H; inversion H; subst; split; [reflexivity|left; reflexivity]].
       destruct (ws_closed s) eqn:Ec; [intros H; inversion H; subst; split; [reflexivity|left; reflexivity]|].
@@ -725,7 +801,7 @@ Section Session.
       pose proof (clean_of_finv_st Hkn _ _ HI Ec Ef) as HC. intros Ep He.
       destruct (put_one_clean s st c d p s' out HC (fi_opts _ _ HI) (fi_kind _ _ HI) Hp Hsm Ep) as (_ & _ & _ & Hcase).
       destruct Hcase as [(-> & _) | (Herr & Hidx & Hrest)]; [discriminate|].
-      split; [exact Hidx|]. destruct Hrest as [(_ & Hf & _) | Hs]; [left; exact Hf|right; exact Hs].
+      split; [exact Hidx|]. destruct Hrest as [(_ & Hf & _) | [Hs _]]; [left; exact Hf|right; exact Hs].
   Qed.
 
   (* in CARv1 mode the file is a complete archive of the acknowledged blocks at every moment *)
